@@ -1,6 +1,7 @@
 import Driver.Wire
 import Sio.Model.CodecSpec
 import Sio.Model.JsonParse
+import Driver.KArgs
 open Lean (Json)
 namespace Sio.KCodec
 open Sio.Wire
@@ -113,6 +114,10 @@ def step (_ : Unit) (j : Json) : Except String (Unit × Json) := do
     match J.loads text with
     | .error e => pure ((), excJson e)
     | .ok v => pure ((), Json.mkObj [("value", jToJson v)])
+  else if op.startsWith "c02_" then
+    -- kernel K2 (argument packing, multi-frame send/receive): Driver/KArgs.lean
+    let r ← Sio.KArgs.step op j
+    pure ((), r)
   else throw s!"unknown op {op}"
 
 def main : IO Unit := lineLoop () step
